@@ -60,11 +60,15 @@ def run(ctx):
         big = (not quick) and i % 10 == 0 and no_literal
         cases.append(rpipe.mk_case(i, "real", cc, rnd, 1, format=fmts[i % len(fmts)],
                                    R=(rnd.choice([9000, 20000]) if big else rnd.choice([1, 30, 400])),
-                                   mask=rpipe.mask_of(c["cfg"]), meta=rnd.choice([True, False]), single=rnd.choice([True, False])))
+                                   mask=rpipe.mask_of(c["cfg"]), meta=rnd.choice([True, False]), single=rnd.choice([True, False]),
+                                   # history files: every third object is a deleted version; its visible flag must arrive
+                                   # with and without read_meta
+                                   history=(i % 2 == 1)))
     nexec, nvalid = rpipe.run_cases(ctx, cases)
     import C07
     C07.finish(ctx, cases, nexec, nvalid)
-    ctx.assumptions.append("real-format runs compare the flattened (type,id) sequence and presence of metadata/tags with the model's file; "
+    ctx.assumptions.append("real-format runs compare the flattened (type,id) sequence, the visible flag (history files with deleted versions) and "
+                           "presence of metadata/tags with the model's file; "
                            "o5m is read-only in libosmium and is covered by C02/C06, not here")
 
 
